@@ -41,6 +41,54 @@ func main() {
 		for _, id := range ids {
 			fmt.Println(id, "-", rules.Registry[id].Title)
 		}
+	case "crosspatch":
+		// sa crosspatch <patch.diff>... : analyse /repo with each patch applied as an in-memory overlay and run
+		// EVERY registered check on it; prints the rules that report a violation / undecided. /repo is not touched.
+		code := 0
+		for _, pf := range os.Args[2:] {
+			ov, ok, why := overlayFor(Variant{ID: pf, Patch: pf}, "/repo")
+			if !ok {
+				fmt.Printf("%s\tSKIP\t%s\n", pf, why)
+				continue
+			}
+			prog, err := core.Load("/repo", ov, "")
+			if err != nil {
+				fmt.Printf("%s\tLOAD-ERROR\t%v\n", pf, err)
+				code = 2
+				continue
+			}
+			findings, _ := core.LoadFindings("/verif/known_findings.json")
+			ids := make([]string, 0)
+			for id := range rules.Registry {
+				ids = append(ids, id)
+			}
+			sort.Strings(ids)
+			var fired []string
+			for _, id := range ids {
+				func() {
+					defer func() {
+						if r := recover(); r != nil {
+							fired = append(fired, id+":PANIC")
+						}
+					}()
+					ctx := core.NewCtx(prog, id, "crosspatch", findings)
+					rules.Registry[id].Run(ctx)
+					seen := map[string]bool{}
+					for _, o := range ctx.Unlisted() {
+						k := o.Rule
+						if o.Verdict == core.Undecided {
+							k = "UNDECIDED:" + k
+						}
+						if !seen[k] {
+							seen[k] = true
+							fired = append(fired, k)
+						}
+					}
+				}()
+			}
+			fmt.Printf("%s\t%d\t%s\n", pf, len(fired), strings.Join(fired, " "))
+		}
+		os.Exit(code)
 	case "describe":
 		ids := make([]string, 0)
 		for id := range rules.Registry {
